@@ -255,6 +255,7 @@ class Server(object):
         self.faults = {}            # message id -> {"dup": bool, "corrupt": bool}
         self.done_faults = set()
         self.tx_count = {}
+        self.iq_ids_seen = []
         self.notify_identity_change = False
         self.identity_notes = 0
         self.keyless_answers = {}   # (requester phone, jid) -> why the directory had no keys for jid
@@ -323,6 +324,7 @@ class Server(object):
         a = t[1]
         xmlns = a.get("xmlns")
         self.world.count("srv_iq:%s:%s" % (xmlns, a.get("type")))
+        self.iq_ids_seen.append((client.phone, a.get("id")))
         if xmlns == "encrypt" and a.get("type") == "set":
             return self.iq_set_keys(client, t)
         if xmlns == "encrypt" and a.get("type") == "get":
@@ -576,6 +578,8 @@ class World(object):
         self.cipher_frames = []    # (phone, bytes) what really left the client in the full wiring
         self.idle_timeouts = 0
         self.server_static = None
+        import threading as _th
+        self._cipher_lock = _th.RLock()   # harness state only: writes reaching the dispatcher from several threads are taken one by one
         self.hold_pump = False     # deferred events stay queued (the stack's loop has not turned yet)
         self.trailing = {}         # phone -> bytes appended to the next frame delivered to it (full wiring)
         self.chunker = None        # optional: fn(bytes) -> [chunks] for server->client bytes in the full wiring
@@ -703,6 +707,10 @@ class World(object):
 
     def on_cipher_bytes(self, client, d, data):
         """Full wiring: bytes go to this connection's Noise responder (strict in-order peer)."""
+        with self._cipher_lock:
+            return self._on_cipher_bytes(client, d, data)
+
+    def _on_cipher_bytes(self, client, d, data):
         self.cipher_frames.append((client.phone, data))
         srv = d.srv
         was_err = srv.state == "error"
